@@ -677,8 +677,16 @@ def gen_model(rng, *, stratum: str):
         # component called like it.  Sizes other than 1 everywhere: a species written as a concentration shows.
         opt = rng.choice(["size", "size", "id", "two", "two", "empty", "clash", "defaultname"])
         size = rng.choice(["2", "1/2", "4", "1"])
+        computed_on = [sp for r in model["rxns"] for sp, c in r["stoich"] if c[0] == "fn"]
+        if computed_on and opt in ("size", "id") and rng.random() < 0.6:
+            opt = "refid"
         if opt == "size":
             case["compartments"] = [["compartment", size]]
+        elif opt == "refid":
+            # a compartment called like the species reference the exporter invents for a computed coefficient
+            # (`<species>ref`): the reference names avoid the component names only (finding F-C08-19)
+            case["compartments"] = [[f"{computed_on[0]}ref", size]]
+            case["finding"] = "F-C08-19"
         elif opt == "id":
             case["compartments"] = [[rng.choice(["c", "cell", "cytosol"]), size]]
         elif opt == "two":
@@ -1282,7 +1290,7 @@ def judge_case(ctx, case, R, M):
     for k, v in stats.items():
         ctx.hist[f"numbers {k}"] = ctx.hist.get(f"numbers {k}", 0) + v
     fid = case["finding"]
-    if fid in ("F-C08-9", "F-C08-17", "F-C08-18"):
+    if fid in ("F-C08-9", "F-C08-17", "F-C08-18", "F-C08-19"):
         Mv = None  # pysbml refuses booleans as numbers / reuses a component's name; the model does not predict the third party
     ctx.judge(small, Rv, S, Mv, finding=fid, what="export -> import changes names, initial values, derived values, fluxes or derivatives")
 
